@@ -92,7 +92,14 @@ pub fn one_case(rng: &mut Rng, id: String, big: bool) -> Case {
                 } else {
                     Some(std::thread::spawn(client))
                 };
+                // half of the time the wait in accept() is cut short by a signal once or twice: the connection finally accepted is
+                // a descriptor like any other (owned, close-on-exec)
+                if rng.chance(1, 2) {
+                    ip::EINTR_ACCEPT_NEXT.store(1 + rng.below(2), Ordering::SeqCst);
+                    case.tags.push("accept_interrupted".into());
+                }
                 let (rx, first) = ip::lib_scope(|| srv.accept().unwrap());
+                ip::EINTR_ACCEPT_NEXT.store(0, Ordering::SeqCst);
                 check_cloexec(&base, &mut case, "IpcOneShotServer::accept");
                 if first.0 != 0 {
                     case.fail(format!("accept returned message {} first", first.0));
